@@ -157,6 +157,8 @@ def gen_file(rng, nested=False, features=None):
                     if lf.ptype == P.BYTE_ARRAY and len(seen) < dsz and rng.random() < 0.05:
                         break
                 dictionary = list(seen)
+                if nn == 0 and rng.random() < 0.7:
+                    dictionary = []          # an all-null chunk: writers such as parquet-cpp emit a dictionary page with 0 entries (empty body when uncompressed)
                 vals = [rng.choice(dictionary) for _ in range(nn)] if rng.random() < 0.7 else [dictionary[(i // rng.choice([1, 9, 40])) % len(dictionary)] for i in range(nn)]
             else:
                 vals = [rand_value(rng, lf.ptype, lf.type_length) for _ in range(nn)]
